@@ -3,6 +3,9 @@
 correspondence: number of simulated time points of every primary (via derivative.simulate) and
 OptionMixin.time_to_maturity (both forms, negative indices) vs the bit-exact Float replica of the
 Lean model (Model/Grid.lean).  predicate: exact-rational reading of the property statement.
+object re-use: the underlier of an existing derivative replaced (attribute assignment / re-registration) and simulated again;
+every feature step by step incl. negative steps (get(i) = column i of get(None)), FeatureList.get / Hedger.get_input likewise, the
+TimeToMaturity feature against the replica (op "ttm").
 """
 import math
 from fractions import Fraction as F
@@ -66,6 +69,240 @@ def make_primary(I, torch, name, dt, dtype):
 PRIMS = ["BrownianStock", "HestonStock", "CIRRate", "VasicekRate", "MertonJumpStock", "KouJumpStock",
          "RoughBergomiStock", "LocalVolatilityStock"]
 OPTS = ["EuropeanOption", "LookbackOption", "AmericanBinaryOption", "EuropeanBinaryOption"]
+
+
+DTS = [1 / 250, 1 / 365, 1 / 12, 0.1, 0.01, 1 / 52]
+RATES = ("CIRRate", "VasicekRate")
+
+
+def _ulp_eps(t, T, dt):
+    return 4 * 2.0 ** (-52 if t.dtype.itemsize == 8 else -23) * max(1e-300, (T - 1) * dt)
+
+
+# ---------------------------------------------------------------------------------------------------------------------------
+# object re-use: the underlier of an EXISTING derivative is replaced (derivative.underlier = other_primary, or register_underlier
+# under the same name), optionally together with a new maturity, and the derivative is simulated again: every primary the derivative
+# reaches as its underlier (registry, ul(), the attribute) is on the grid of the current maturity, and time to maturity, payoff,
+# features and hedges live on that one grid
+
+def check_replace_underlier(ctx, torch, I, g):
+    from pfhedge.nn import Hedger, Naked
+    from pfhedge.features import FeatureList
+    RP = [x for x in PRIMS if x != "VasicekRate"]
+    for it in range(40 if ctx.tier == "quick" else 600):
+        p0n, dt0 = g.choice(RP), g.choice(DTS)
+        opt = g.choice(OPTS)
+        k0 = g.randint(1, 30)
+        d = getattr(I, opt)(make_primary(I, torch, p0n, dt0, None), maturity=k0 * dt0)
+        case = {"replace_underlier": True, "option": opt, "primary": p0n, "dt": dt0, "maturity": k0 * dt0, "history": []}
+        if g.chance(0.7):
+            n0 = g.choice([1, 2, 3])
+            d.simulate(n_paths=n0)
+            case["history"].append({"simulate": n0})
+        routes = []
+        for r in range(g.choice([1, 1, 2, 3])):
+            pn, dtn = g.choice(RP), g.choice(DTS)
+            new = make_primary(I, torch, pn, dtn, g.choice([None, None, torch.float64]))
+            step = {"replace_by": pn, "dt": dtn}
+            if g.chance(0.4):
+                # the new primary has been looked at on its own before: it carries paths of another horizon
+                hz, npre = g.randint(1, 30) * dtn, g.choice([1, 2, 4])
+                new.simulate(n_paths=npre, time_horizon=hz)
+                step["pre_simulated"] = {"time_horizon": hz, "n_paths": npre}
+            route = g.weighted([("assign", 5), ("register", 1)])
+            routes.append(route)
+            step["route"] = route
+            if route == "assign":
+                d.underlier = new
+            else:
+                d.register_underlier("underlier", new)
+            keep = g.chance(0.3) and d.maturity / dtn <= 40
+            if not keep:
+                d.maturity = (g.randint(1, 30) + g.choice([0, 0, 0, 0.5, 0.25])) * dtn
+            step["maturity"] = d.maturity
+            n1 = g.choice([1, 2, 3, 5])
+            step["n_paths"] = n1
+            case["history"].append(step)
+            st, v, _ = call_impl(d.simulate, n_paths=n1)
+            ctx.stats[f"replace_underlier:route={route}"] += 1
+            ctx.stats[f"replace_underlier:pre_simulated={'pre_simulated' in step}"] += 1
+            if st != "ok":
+                ctx.fail("simulate raised on a derivative whose underlier was replaced", case, key="replace-underlier:raise", detail=v)
+                break
+            # a re-registration after an attribute assignment is kept apart (the attribute then hides the registry)
+            mixed = route == "register" and "assign" in routes[:-1]
+            mk = (lambda key: "replace-underlier:register-after-assignment") if mixed else (lambda key: key)   # noqa
+            M = d.maturity
+            reach = [("underliers()[%d]" % i_, u_) for i_, u_ in enumerate(d.underliers())] + [("ul()", d.ul()), (".underlier", d.underlier)]
+            seen, bad = {}, {}
+            for how, u_ in reach:
+                if id(u_) in seen:
+                    continue
+                seen[id(u_)] = how
+                shapes = {name: tuple(b.shape) for name, b in u_.named_buffers()}
+                want = expected_points(M, u_.dt)
+                Tu = shapes.get("spot", (0, 0))[1]
+                if "spot" not in shapes or Tu not in want or any(sh != (n1, Tu) for sh in shapes.values()):
+                    bad[how] = {"buffers": str(shapes), "dt": u_.dt, "expected_points": sorted(want)}
+            if bad or len(seen) != 1:
+                ctx.fail("after the underlier of an existing derivative was replaced and the derivative simulated again, not every primary "
+                         "it reaches as its underlier (registry / ul() / attribute) is on the grid ceil(M/dt)+1 of the current maturity",
+                         case, key=mk("replace-underlier:grid"),
+                         detail={"off_grid": bad, "objects": {how: type(u_).__name__ + ("=new" if u_ is new else "") for how, u_ in reach}})
+                break
+            T = new.spot.size(1)
+            rate = pn in RATES
+            feats = ["moneyness", "time_to_maturity"] + ([] if rate else ["volatility"])
+            with torch.no_grad():
+                r_ttm = call_impl(d.time_to_maturity, None)[:2]
+                r_pay = call_impl(d.payoff)[:2]
+                r_f = call_impl(FeatureList(feats).of(d).get, None)[:2]
+                r_h = call_impl(Hedger(Naked(), feats).compute_hedge, d)[:2]
+            got = {"time_to_maturity": r_ttm, "payoff": r_pay, "features": r_f, "hedge": r_h}
+            got = {k_: (tuple(v_.shape) if s_ == "ok" else v_) for k_, (s_, v_) in got.items()}
+            exp = {"time_to_maturity": (n1, T), "payoff": (n1,), "features": (n1, T, len(feats)), "hedge": (n1, 1, T)}
+            if got != exp:
+                ctx.fail("after the underlier of an existing derivative was replaced: payoff / time to maturity / features / hedge are not on "
+                         "the grid of the new simulation", case, key=mk("replace-underlier:shared-grid"),
+                         detail={"got": str(got), "expected": str(exp)})
+                break
+            tt = r_ttm[1].to(torch.float64).tolist()
+            eps = _ulp_eps(new.spot, T, dtn)
+            if any(abs(row[i] - (T - 1 - i) * dtn) > eps for row in tt for i in range(T)) or any(row[-1] != 0.0 for row in tt) \
+                    or any(row[i] <= row[i + 1] for row in tt for i in range(T - 1)):
+                ctx.fail("after the underlier of an existing derivative was replaced: time to maturity is not (T-1-i)*dt of the NEW underlier, "
+                         "strictly decreasing to exactly zero", case, key=mk("replace-underlier:time_to_maturity"), detail={"ttm": tt[0][:6]})
+                break
+            # the payoff is read off the paths just simulated
+            last = new.spot[:, -1] if opt in ("EuropeanOption", "EuropeanBinaryOption") else new.spot.max(-1).values
+            ref = (last - d.strike).clamp(min=0.0) if opt in ("EuropeanOption", "LookbackOption") else (last >= d.strike).to(last)
+            if not torch.equal(r_pay[1], ref) or not torch.equal(r_f[1][..., 0], new.spot / d.strike):
+                ctx.fail("after the underlier of an existing derivative was replaced: payoff / moneyness are not those of the paths just simulated",
+                         case, key=mk("replace-underlier:values"))
+                break
+        ctx.case(case, True, tag="replace_underlier")
+        ctx.traces += 1
+
+
+# ---------------------------------------------------------------------------------------------------------------------------
+# every feature, step by step: where a step index i (negative indices included) is accepted, get(i) is ONE time point and equals
+# column i of the all-steps value get(None), which has T = ceil(M/dt)+1 points; the same through FeatureList.get and Hedger.get_input
+
+def check_feature_steps(ctx, torch, I, g, freqs, fmeta):
+    from pfhedge.nn import Hedger, Naked, BlackScholes
+    from pfhedge.features import FeatureList, get_feature, Ones, Barrier
+    from pfhedge.features.features import UnderlierLogSpot
+    NAMED = ["moneyness", "log_moneyness", "time_to_maturity", "expiry_time", "underlier_spot", "zeros", "empty",
+             "max_moneyness", "max_log_moneyness"]
+    VOL = ["volatility", "variance"]
+    for it in range(36 if ctx.tier == "quick" else 500):
+        prim = g.choice([x for x in PRIMS if x != "VasicekRate"])
+        dt = g.choice(DTS)
+        k = g.choice([1, 1, 2, 3, 5, 8, 13, 20])
+        frac = g.choice([0, 0, 0, 0.5])
+        m = (k + frac) * dt
+        opt = g.choice(OPTS)
+        dtype = g.choice([None, torch.float64])
+        N = g.choice([1, 2, 3])
+        strike = g.choice([1.0, 0.5, 1.25])
+        p = make_primary(I, torch, prim, dt, dtype)
+        d = getattr(I, opt)(p, strike=strike, maturity=m)
+        case = {"feature_steps": True, "primary": prim, "dt": dt, "M": m, "option": opt, "dtype": str(dtype), "n_paths": N, "strike": strike}
+        st, v, _ = call_impl(d.simulate, n_paths=N)
+        if st != "ok":
+            ctx.fail("derivative.simulate raised", case, key=f"simulate:{prim}:raise", detail=v)
+            continue
+        T = p.spot.size(1)
+        ctx.case(case, True, tag="feature_steps")
+        ctx.traces += 1
+        idx = sorted({0, T - 1, -1, -T, max(-2, -T), g.randint(-T, T - 1), g.randint(-T, -1)})
+        thr = g.choice([1.0, float(p.spot.max()), float(p.spot.min()), 1.01])
+        feats = [(n_, get_feature(n_)) for n_ in NAMED + ([] if prim in RATES else VOL)]
+        feats += [("ones", Ones()), ("underlier_log_spot", UnderlierLogSpot()), ("barrier_up", Barrier(thr, up=True)),
+                  ("barrier_down", Barrier(thr, up=False))]
+        accepted = {i: [] for i in idx}            # features whose step-wise value at i is fine (candidates for the lists below)
+        with torch.no_grad():
+            for name, f in feats:
+                f = f.of(d)
+                sf, full, _ = call_impl(f.get, None)
+                if sf != "ok" or tuple(full.shape) != (N, T, 1):
+                    ctx.fail(f"feature '{name}' over all steps is not on the simulated grid", case, key=f"feature.{name}.get:all-steps",
+                             detail=full if sf != "ok" else list(full.shape))
+                    continue
+                ats = []
+                for i in idx:
+                    si, one, _ = call_impl(f.get, i)
+                    cls = "negative-step" if i < 0 else "step"
+                    ctx.stats[f"feature_steps:{cls}:{'accepted' if si == 'ok' else 'refused'}"] += 1
+                    if si != "ok":
+                        ats.append(("err", one))
+                        if i >= 0:
+                            ctx.fail(f"feature '{name}' raised at a step of the simulated grid", case | {"step": i, "T": T},
+                                     key=f"feature.{name}.get:step-error", detail=one)
+                        continue           # a negative index that is not accepted (e.g. the running maximum up to step -1)
+                    ats.append(("ok", float(one.reshape(-1)[0]) if one.numel() else None))
+                    col = full[:, [i]]
+                    if tuple(one.shape) != (N, 1, 1):
+                        ctx.fail(f"feature '{name}' at step {i} of {T} is not one time point per path", case | {"step": i, "T": T},
+                                 key=f"feature.{name}.get:{cls}-shape", detail={"shape": list(one.shape), "expected": [N, 1, 1]})
+                        continue
+                    if name == "empty":
+                        pass                # uninitialised values: the grid only
+                    elif name in ("time_to_maturity", "expiry_time"):
+                        # (t[-1] - t[i]) of the all-steps form vs (T-1-i)*dt: equal up to the rounding of the products
+                        eps = _ulp_eps(p.spot, T, dt)
+                        want = (T - 1 - (i % T)) * dt
+                        if any(abs(float(a) - want) > eps for a in one.reshape(-1)) or bool(((one - col).abs() > eps).any()) \
+                                or (i % T == T - 1 and bool((one != 0).any())):
+                            ctx.fail(f"feature '{name}' at step {i} of {T} differs from (T-1-i)*dt / from column i of its all-steps value",
+                                     case | {"step": i, "T": T}, key=f"feature.{name}.get:{cls}-value",
+                                     detail={"impl": one.reshape(-1).tolist(), "expected": want})
+                            continue
+                    elif "log" in name:
+                        # the logarithm of a column vs the column of the logarithm: the same numbers through a kernel that may
+                        # take its vectorised or its scalar path -> a few units in the last place
+                        tol = 8 * 2.0 ** (-52 if one.dtype == torch.float64 else -23)
+                        if not bool(((one - col).abs() <= tol * (1 + col.abs())).all()):
+                            ctx.fail(f"feature '{name}' at step {i} of {T} differs from column i of its all-steps value",
+                                     case | {"step": i, "T": T}, key=f"feature.{name}.get:{cls}-value",
+                                     detail={"impl": one.reshape(-1).tolist(), "column": col.reshape(-1).tolist()})
+                            continue
+                    elif not torch.equal(one, col):
+                        ctx.fail(f"feature '{name}' at step {i} of {T} differs from column i of its all-steps value",
+                                 case | {"step": i, "T": T}, key=f"feature.{name}.get:{cls}-value",
+                                 detail={"impl": one.reshape(-1).tolist(), "column": col.reshape(-1).tolist()})
+                        continue
+                    if name != "empty" and not name.startswith("barrier") and name not in ("ones", "underlier_log_spot"):
+                        accepted[i].append(name)
+                if name == "time_to_maturity" and p.spot.dtype == torch.float64:
+                    freqs.append({"op": "ttm", "n": T, "dt": float_bits(dt), "idx": idx})
+                    fmeta.append((case | {"T": T, "idx": idx, "via": "TimeToMaturity feature"},
+                                  idx, [float(x) for x in full[0, :, 0].tolist()], ats))
+            # several features side by side: FeatureList.get(i) / Hedger.get_input(derivative, i) = the features' values at step i
+            lists = []
+            for _ in range(3):
+                i = g.choice(idx)
+                if len(accepted[i]) >= 2:
+                    names = [g.choice(accepted[i]) for _ in range(g.choice([2, 3, 4]))]
+                    lists.append((i, names))
+            bs = [str(n_) for n_ in BlackScholes(d).inputs()]
+            for i in (-1, g.choice(idx)):
+                if all(n_ in accepted[i] for n_ in bs):
+                    lists.append((i, bs))            # the inputs of the Black-Scholes hedge of this derivative
+            for i, names in lists:
+                cls = "negative-step" if i < 0 else "step"
+                parts = torch.cat([get_feature(n_).of(d).get(i) for n_ in names], dim=-1)
+                for via, fn in (("FeatureList.get", FeatureList(names).of(d).get), ("Hedger.get_input", None)):
+                    if fn is None:
+                        sv, out, _ = call_impl(Hedger(Naked(), names).get_input, d, i)
+                    else:
+                        sv, out, _ = call_impl(fn, i)
+                    ctx.stats[f"feature_steps:{via}:{cls}"] += 1
+                    if sv != "ok" or tuple(out.shape) != (N, 1, len(names)) or not torch.equal(out, parts):
+                        ctx.fail(f"{via} at step {i} of {T} is not the features' values at that step side by side (each feature accepts "
+                                 "the step on its own)", case | {"step": i, "T": T, "features": names}, key=f"{via}:{cls}",
+                                 detail=out if sv != "ok" else {"shape": list(out.shape), "expected": [N, 1, len(names)]})
+                        break
 
 
 def check(ctx):
@@ -158,7 +395,14 @@ def check(ctx):
         case = {"multi_underlier": [pa, pb], "dt": dtm, "maturities": [k1 * dtm, k2 * dtm]}
         ctx.case(case, True, tag="multi_underlier")
         ctx.traces += 1
+        replaced = None
         for kk in (k1, k2):
+            if kk is k2 and g.chance(0.6):
+                # object re-use: one underlier of the EXISTING derivative is replaced by attribute assignment (same step size)
+                replaced = g.choice(["first", "second"])
+                pn = g.choice(PRIMS[:3] + PRIMS[4:6])
+                setattr(sp, replaced, make_primary(I, torch, pn, dtm, None))
+                case = case | {"replaced_by_assignment": {replaced: pn}}
             sp.maturity = kk * dtm
             st, v, _ = call_impl(sp.simulate, n_paths=2)
             if st != "ok":
@@ -174,6 +418,20 @@ def check(ctx):
                 ctx.fail("not every underlier of a derivative is simulated on the grid of the current maturity", case | {"maturity": kk * dtm},
                          key="simulate:multi-underlier:grid", detail={"shapes": shapes, "expected_points": sorted(want)})
                 break
+            if replaced:
+                # whichever way the derivative reaches its underliers (registry / attribute), each is on the grid of the maturity
+                reach = [("underliers()[%d]" % i_, u_) for i_, u_ in enumerate(sp.underliers())] + \
+                        [(".first", sp.first), (".second", sp.second), ("get_underlier(first)", sp.get_underlier("first")),
+                         ("get_underlier(second)", sp.get_underlier("second"))]
+                got = {how: (tuple(u_.spot.shape) if hasattr(u_, "spot") else "not simulated") for how, u_ in reach}
+                if any(not (isinstance(sh, tuple) and sh[0] == 2 and sh[1] in want) for sh in got.values()) \
+                        or len({id(u_) for _, u_ in reach}) != 2:
+                    ctx.fail("after an underlier of an existing derivative was replaced by attribute assignment, simulate() does not put "
+                             "every underlier (registry and attributes) on the grid of the current maturity", case | {"maturity": kk * dtm},
+                             key="simulate:multi-underlier:replaced-by-assignment",
+                             detail={"shapes": str(got), "expected_points": sorted(want),
+                                     "distinct_objects": len({id(u_) for _, u_ in reach})})
+                    break
     # ---------- lower boundary: maturities shorter than one step, down to M = 0 (a grid with a single time point)
     from pfhedge.features import Moneyness, TimeToMaturity
     SHORT_PRIMS = [x for x in PRIMS if x != "RoughBergomiStock"]     # (rough Bergomi cannot generate a single point: raises)
@@ -291,6 +549,14 @@ def check(ctx):
                          case, key="listed:grid-after-resimulation", detail={"got": str(got), "grid": [n_paths, T]})
                 break
             with torch.no_grad():
+                ineg = g.choice([-1, -1, -T, g.randint(-T, -1)])
+                r_neg = call_impl(Spot().of(listed).get, ineg)[:2]
+            if r_neg[0] == "ok" and (tuple(r_neg[1].shape) != (n_paths, 1, 1) or not torch.equal(r_neg[1], r_feat[1][:, [ineg]])):
+                ctx.fail("the Spot feature of a listed derivative at a negative step is not one time point = that column of its all-steps value",
+                         case | {"step": ineg}, key="feature.spot.get:negative-step",
+                         detail={"shape": list(r_neg[1].shape), "grid": [n_paths, T]})
+                break
+            with torch.no_grad():
                 fresh = pricer(listed)
             if not torch.equal(r_spot[1], fresh):
                 ctx.fail("the price series of a listed derivative is not its pricer applied to the current paths of the shared underlier", case,
@@ -309,6 +575,9 @@ def check(ctx):
                 ctx.fail("a hedge computed with a listed derivative as the hedging instrument is not on the grid of the derivative just simulated",
                          case, key="listed:hedge-grid", detail=bad)
                 break
+    check_replace_underlier(ctx, torch, I, g)
+    freqs, fmeta = [], []
+    check_feature_steps(ctx, torch, I, g, freqs, fmeta)
     # ---------- time_to_maturity replica (float64 instruments: bit-exact)
     treqs, tmeta = [], []
     for _ in range(150 if ctx.tier == "quick" else 2000):
@@ -327,10 +596,19 @@ def check(ctx):
         tmeta.append((T, dt, idx, allv, ats))
     try:
         outs = ctx.driver(reqs)
-        touts = ctx.driver(treqs)
+        touts = ctx.driver(treqs + freqs)
+        touts, fouts = touts[:len(treqs)], touts[len(treqs):]
     except DriverBroken as e:
         ctx.ties_broken.append({"kind": "driver", "detail": str(e)[:1500]})
-        outs, touts = [], []
+        outs, touts, fouts = [], [], []
+    # the TimeToMaturity feature step by step (float64 instruments) against the same replica: bit-exact
+    for (case, idx, allv, ats), mo in zip(fmeta, fouts):
+        if dec_flt(mo["all"]) != allv:
+            ctx.disagree("feature_ttm_all", case, allv, dec_flt(mo["all"]))
+        for i, a, mm in zip(idx, ats, mo["at"]):
+            mv = ("ok", float_of_bits(mm["ok"])) if "ok" in mm else ("err", mm["err"])
+            if a != mv:
+                ctx.disagree("feature_ttm_at", case | {"i": i}, a, mv)
     for (case, T), mo in zip(meta, outs):
         if mo["n_shipped"] != T:
             ctx.disagree("n_steps", case, T, mo["n_shipped"])
@@ -359,4 +637,9 @@ def check(ctx):
              "and non-integer multiples, k<=120, all 8 primaries x 4 option types; time_to_maturity for all/one step incl. negative and "
              "wrapped indices; maturities shorter than one step (M = 0, 1e-14 dt, fractions of dt) on 7 primaries with payoff = intrinsic value at T = 1; "
              "a listed derivative sharing its underlier with a derivative of another maturity, re-simulated through either / the underlier, "
-             "price series / Spot feature / hedges on the current grid; every case is non-trivial (T>=2 for ttm); distinct = sha1 of canonical case")
+             "price series / Spot feature / hedges on the current grid; the underlier of an existing derivative (single / two-underlier) "
+             "replaced by attribute assignment or re-registration (fresh or pre-simulated primary of another type / dt, with or without a "
+             "new maturity) and simulated again: every reachable underlier, time to maturity, payoff, features, hedge on the new grid; "
+             "every feature (13 named ones, Ones, UnderlierLogSpot, Barrier up/down, Spot of a listed derivative) at steps 0, T-1, -1, -2, -T "
+             "and random ones vs column i of the all-steps value, FeatureList.get / Hedger.get_input (random lists, Black-Scholes inputs) "
+             "at the same steps; every case is non-trivial (T>=2 for ttm); distinct = sha1 of canonical case")
